@@ -249,8 +249,8 @@ def main(argv=None):
         violations += 1
         suffix = "" if reproduced else " no-failing-input-found"
         lines.append(f"VIOLATION property={pid} replay={rfile} obligation=\"{o['unit']}: {o['label']}\"{suffix}")
+    by_native = {}
     for nf in native_fail:
-        fid = slug(nf["native"] + "_" + json.dumps(nf["failure"], default=str)[:60])
         match = None
         for f in open_findings:
             if f.get("native") and re.search(f["native"], nf["native"]) and re.search(f.get("witness_regex", ".*"), json.dumps(nf["failure"], default=str)):
@@ -263,11 +263,13 @@ def main(argv=None):
         if nf["kind"] == "validation":
             errors.append(f"encoder validation disagreement in {nf['native']}: {json.dumps(nf['failure'], default=str)[:300]}")
             continue
+        by_native.setdefault(nf["native"], []).append(nf["failure"])
+    for name, fails in by_native.items():
         rdir.mkdir(parents=True, exist_ok=True)
-        rfile = rdir / f"native__{fid}.json"
-        rfile.write_text(json.dumps(dict(property=pid, native=nf["native"], failure=nf["failure"], reproduced_on_real_code=True), indent=1, default=str))
+        rfile = rdir / f"native__{slug(name)}.json"
+        rfile.write_text(json.dumps(dict(property=pid, bounded_check=name, failures=fails, reproduced_on_real_code=True, note="each failure is an input on which the real code violates the run-time contract"), indent=1, default=str))
         violations += 1
-        lines.append(f"VIOLATION property={pid} replay={rfile} bounded-check=\"{nf['native']}\"")
+        lines.append(f"VIOLATION property={pid} replay={rfile} bounded-check=\"{name}\" failing-inputs={len(fails)}")
     for k in known_matched:
         lines.append(f"KNOWN-FINDING: property={pid} {k['id']}: {k['what']}")
 
